@@ -115,11 +115,27 @@ class C17(Property):
                 ps = g.flat_arc_pts(rng) if kk < 0.15 else g.longway_arc_pts(rng) if kk < 0.3 else arc_points(rng)
                 pts = [(ps[0][0], ps[0][1], "P"), (ps[1][0], ps[1][1], None), (ps[2][0], ps[2][1], None)]
                 tag = "arc"
-            elif k < 0.55:
+            elif k < 0.47:
                 m = rng.randint(2, 10)
                 pts = [(g.f32(rng.uniform(-600, 1100)), g.f32(rng.uniform(-600, 1100)), None) for _ in range(m)]
                 pts[0] = (pts[0][0], pts[0][1], rng.choice(["B", "B", "B3", "P" if m != 3 else "B"]))
                 tag = "bezier"
+            elif k < 0.55:
+                # control polygons that are straight and evenly spaced over a stretch of three or more points (second differences
+                # zero there) and bend elsewhere: the flatness test must look at every consecutive triple
+                m = rng.randint(4, 9)
+                run = rng.randint(3, m - 1)
+                at = rng.randint(0, m - run)
+                x0, y0 = rng.uniform(-200, 600), rng.uniform(-200, 500)
+                dx, dy = rng.uniform(-150, 150), rng.uniform(-150, 150)
+                pts = []
+                for i in range(m):
+                    if at <= i < at + run:
+                        pts.append((g.f32(x0 + dx * (i - at)), g.f32(y0 + dy * (i - at)), None))
+                    else:
+                        pts.append((g.f32(rng.uniform(-300, 800)), g.f32(rng.uniform(-300, 700)), None))
+                pts[0] = (pts[0][0], pts[0][1], "B")
+                tag = "bezier-straight-run"
             elif k < 0.75:
                 m = rng.randint(2, 8)
                 x, y = rng.uniform(-300, 700), rng.uniform(-300, 700)
